@@ -19,6 +19,9 @@ class ATSPAdapter(TSPAdapter):
     case_type = "atsp_case"
     sol_type = "(atsp_inst * atsp_obs) * list nat * bool"
 
+    def variants(self, tier):
+        return [{"num_loc": n} for n in ([1, 2, 3, 5, 8] if tier == "quick" else [1, 2, 3, 4, 6, 10, 20])]
+
     def make_env(self, variant):
         from rl4co.envs import ATSPEnv
         return ATSPEnv(generator_params={"num_loc": variant["num_loc"]}, check_solution=False)
@@ -48,7 +51,7 @@ class ATSPAdapter(TSPAdapter):
 
     # ---------------------------------------------------------------- Coq encoding
     def coq_instance(self, env, td_reset, variant):
-        return "(mk_atsp %s %s %s)" % (cnat(env.generator.num_loc), envh.zmatrix(td_reset["cost_matrix"][0]), self.obs_term(td_reset))
+        return "(mk_atsp %s %s %s)" % (cnat(env.generator.num_loc), self.matrix_term(td_reset["cost_matrix"][0]), self.obs_term(td_reset))
 
     def feasible_solutions(self, env, td_reset, variant):
         n = td_reset["cost_matrix"].shape[-1]
